@@ -311,7 +311,7 @@ def _nonsingular(cfg, a, high, A, B, dims):
     return True
 
 
-def systematic_configs(seed=0, classes=None):
+def systematic_configs(seed=0, classes=None, variants=(True, False)):
     """deterministic family: for every grid class two non-uniform grids with two cells per axis
     (sizes ascending / descending, so that first and last cell always differ) times every
     combination of velocity signs per axis - the inputs on which boundary corrections of one side,
@@ -320,7 +320,7 @@ def systematic_configs(seed=0, classes=None):
     out = []
     for cls in classes or drive.CLASSES:
         d = drive.dim(cls)
-        for asc in (True, False):
+        for asc in variants:               # True: ascending sizes, False: descending, "uni": uniform
             for signs in itertools.product([1, -1], repeat=d):
                 rng = _r.Random(hash((seed, cls, asc, signs)) & 0xffffffff)
                 cfg = gen_config(rng, cls, nmax=2, allow_periodic=False)
@@ -335,6 +335,8 @@ def systematic_configs(seed=0, classes=None):
                             lo, steps = (Fr(0), [Fr(2), Fr(1)])
                     if cls == "SphericalGrid3D" and lab == "r":
                         lo, steps = ((Fr(1), [Fr(1), Fr(2)]) if asc else (Fr(0), [Fr(2), Fr(2)]))
+                    if asc == "uni":
+                        lo, steps = (Fr(1) if lab in ("r", "theta") else Fr(0)), [Fr(1), Fr(1)]
                     faces.append([lo, lo + steps[0], lo + steps[0] + steps[1]])
                 cfg["faces"] = [[enc(x) for x in f] for f in faces]
                 dims = [2] * d
@@ -448,6 +450,11 @@ def interior(arr):
 
 
 # ----------------------------------------------------------------------------- observing
+class Entries(list):
+    """list of [row cell, col cell, [n,d]]: marks matrix-shaped observations, so that cell indices such as
+    (1, 0) are never mistaken for the `unliftable' marker [1, 0] (opscheck.outputs_with_unknown)"""
+
+
 def mat_entries(M, dims):
     """scipy sparse matrix -> canonical list of [row cell, col cell, [n,d]] (zeros dropped)"""
     np = drive.np()
@@ -456,7 +463,7 @@ def mat_entries(M, dims):
     acc = {}
     for r, cc, v in zip(coo.row, coo.col, coo.data):
         acc[(int(r), int(cc))] = acc.get((int(r), int(cc)), 0.0) + float(v)
-    out = []
+    out = Entries()
     for (r, cc), v in sorted(acc.items()):
         q = lift.lift_enc(v)
         if q == [0, 1]:
@@ -469,7 +476,7 @@ def dense_entries(A, dims):
     """dense (ncells x ncells) array -> entries, as mat_entries"""
     np = drive.np()
     full = [n + 2 for n in dims]
-    out = []
+    out = Entries()
     rs, cs = np.nonzero(A)
     for r, cc in zip(rs, cs):
         q = lift.lift_enc(A[r, cc])
